@@ -66,7 +66,11 @@ REG = {
                 "ends of their ranges, rationals a binary float represents exactly or not, saturated / truncated types, constants that refer to earlier ones) followed by `<type> X = <expression over "
                 "their names>` (bare copy into the same / a wider / a narrower type, arithmetic, comparisons, logic, two names, sets of names) with the target type chosen around the value; the expected "
                 "value is computed from the STORED values of the referenced constants, the earlier constants of the returned model are judged too; one in three is a service whose other section "
-                "declares constants of the same names with other values; distinct = distinct (type, initialiser text)",
+                "declares constants of the same names with other values; placement family (one general / character case in four): the constant statement at the "
+                "first / middle / last position of its section (message, request section - last means right before `---` -, response section) x "
+                "every ending of the text (final newline, none, trailing blanks / tab, trailing comment, empty comment `#`, each with and without "
+                "the final newline, an empty last line, CR LF line ends with and without the last one), compliant and non-compliant initialisers "
+                "alike: a compliant one must be in that section of the returned model with the stored value; distinct = distinct (type, initialiser text)",
         "technique": "Lean 4 theorems over a model of Constant.__init__ and inclusive_value_range; the model is proved equal to Lean definitions that are translated on every run from the working tree "
                      "(py2lean: Constant.__init__, the constructors / inclusive_value_range / class hierarchy of _primitive.py incl. the table of the float limits, Rational.is_integer, the value classes of "
                      "_expression) by bridge theorems + differential correspondence through `<type> X = <expr>` definitions + declarative oracle on Python integers/Fractions",
